@@ -220,17 +220,22 @@ def patchDynamics (l : Labels) (bufOffset bufAddr : Nat) :
       | .ok buf' => patchDynamics l bufOffset bufAddr rest buf' (if p.needsAdjustment then m ++ [p] else m)
 
 /-- `encode_relocs` of all three front-ends: error slot first, then statics, then dynamics.
-`Vec::drain(..)` empties the static list even on an early return; the dynamic list is only drained once reached. -/
-def Core.encodeRelocs (c : Core) (buf : List Byte) (bufOffset bufAddr : Nat) :
+`VecAssembler::commit` and `Assembler::encode_relocs` iterate `Vec::drain(..)` directly: the static list is emptied even
+on an early return, the dynamic list only once it is reached, and nothing is drained when the error slot fires
+(`drainAll = false`). `Modifier::encode_relocs` takes both lists out of the shared registry before anything else
+(`drainAll = true`), because its patch locations are only meaningful for the committed buffer. -/
+def Core.encodeRelocs (c : Core) (buf : List Byte) (bufOffset bufAddr : Nat) (drainAll : Bool := false) :
     Core × List Byte × List PatchLoc × Out :=
   match c.error with
-  | some e => ({ c with error := none }, buf, [], .err e)
+  | some e =>
+    (if drainAll then { c with error := none, statics := [], dynamics := [] } else { c with error := none }, buf, [], .err e)
   | none =>
     match patchStatics c.labels bufOffset bufAddr c.statics buf [] with
     | (buf1, m1, .ok) =>
       let (buf2, m2, o) := patchDynamics c.labels bufOffset bufAddr c.dynamics buf1 m1
       ({ c with statics := [], dynamics := [] }, buf2, m2, o)
-    | (buf1, m1, o) => ({ c with statics := [] }, buf1, m1, o)
+    | (buf1, m1, o) =>
+      (if drainAll then { c with statics := [], dynamics := [] } else { c with statics := [] }, buf1, m1, o)
 
 /-! ## alignment and little-endian pushes (all five `align` implementations compute the same padding) -/
 
